@@ -60,6 +60,16 @@ def ref_tag(k):
 def ref_slot(k):
     return crc16(ref_tag(k)) % SLOT_NUM
 
+_KFS = {}
+def key_for_slot(s):
+    if not _KFS:
+        i = 0
+        while len(_KFS) < SLOT_NUM:
+            k = b'b%d' % i
+            _KFS.setdefault(crc16(k) % SLOT_NUM, k)
+            i += 1
+    return _KFS[s]
+
 def hx(b): return b.hex() if b else '-'
 def unhx(t): return b'' if t == '-' else bytes.fromhex(t)
 
@@ -277,7 +287,16 @@ def gen_cases(chk):
         if first or li % 8 == 0:
             cmds += ODD_CMDS
             first = False
-        # boundary probes: one key for each range edge of the layout
+        # boundary probes: a key for each range edge of the layout (and its neighbours)
+        edges = set()
+        for _, rs in local + peer:
+            for a, b in rs:
+                for x in (a - 1, a, b, b + 1):
+                    if 0 <= x < SLOT_NUM: edges.add(x)
+        edges = sorted(edges)
+        if len(edges) > (12 if quick else 40): edges = r.sample(edges, 12 if quick else 40)
+        for x in edges:
+            cmds.append([r.choice([b'GET', b'DEL', b'SET']), key_for_slot(x)])
         for c in cmds:
             cases.append(head + cmdline(c))
     return cases
@@ -344,7 +363,7 @@ def monitor(case, out):
     allnodes = dict(local); allnodes.update(dict(peer))
     # never executed on a wrong node: whatever reached a backend/peer carries a key whose slot that address covers
     for a, c in sent:
-        inner = strip_fwd(c)
+        inner = strip_fwd(c) if a in dict(peer) else c      # only a forwarded command carries the UMFORWARD prefix
         k = key_of(inner)
         if k is None: return 'command without key sent to %s' % a
         if a not in allnodes or not covers(allnodes[a], ref_slot(k)):
@@ -357,14 +376,18 @@ def monitor(case, out):
         exp = 'I ' + hx(b'%d' % ref_slot(elems[2]))
         return None if reply == exp else 'CLUSTER KEYSLOT %r: expected %d' % (elems[2], ref_slot(elems[2]))
     multi = {b'MGET': 'all', b'DEL': 'all', b'EXISTS': 'all', b'MSET': 'pairs', b'MSETNX': 'pairs'}
-    if name in multi and all(e is not None for e in elems):
+    if name in multi and not all(e is not None for e in elems):
+        return None          # commands with non-bulk elements: only the wrong-node rule above applies
+    if name in multi:
         ks = elems[1:] if multi[name] == 'all' else elems[1::2]
         if name in (b'DEL', b'EXISTS') and len(ks) < 2: ks = []
         if len(set(ref_slot(k) for k in ks)) >= 2 and cfg['ar'] != '1':
             if reply != 'E ' + hx(E_MULTI): return 'cross-slot %s not refused with active redirection off' % name.decode()
             if sent: return 'refused cross-slot %s was partially executed' % name.decode()
         return None
-    if name == b'EVAL' and all(e is not None for e in elems) and len(elems) >= 4 and re.fullmatch(rb'[0-9]+', elems[2]) and int(elems[2]) < 100:
+    if name == b'EVAL' and not (all(e is not None for e in elems) and len(elems) >= 4 and re.fullmatch(rb'[0-9]+', elems[2]) and int(elems[2]) < 100):
+        return None
+    if name == b'EVAL':
         ks = elems[3:3 + int(elems[2])]
         if len(set(ref_slot(k) for k in ks)) >= 2:
             if reply != 'E ' + hx(E_MULTI): return 'cross-slot EVAL not refused'
@@ -375,7 +398,7 @@ def monitor(case, out):
                    b'BLPOP', b'BRPOP', b'BRPOPLPUSH', b'BZPOPMIN', b'BZPOPMAX', b'MGET', b'MSET', b'MSETNX', b'EVAL')
     if name is None or name in proxy_names or len(elems[0]) > 64: return None
     k = key_of(elems)
-    if k is None: return None
+    if k is None or any(e is None for e in elems): return None
     s = ref_slot(k)
     lown = [a for a, rs in local if covers(rs, s)]
     pown = [a for a, rs in peer if covers(rs, s)]
@@ -401,11 +424,13 @@ def agree(case, o, m):
         a = expand_runs(o[7:]); b = expand_runs(m[7:])
         return all((x == y) or (x != '-' and x in y.split('|')) for x, y in zip(a, b))
     if case.startswith('route ') and ' | sent ' in o and ' | sent ' in m:
-        # MSETNX under active redirection with several failing slot groups: which group's error is reported depends on hash order
+        # MSETNX under active redirection with several failing slot groups: the sub commands are sent in HashMap order,
+        # so WHICH group's error is reported is not determined; both sides must report a routing error and send the same
         toks = case.split()
-        if len(toks) > 4 and unhx(toks[4]).upper() == b'MSETNX':
-            pre = 'reply E ' + hx(b'slot not covered ')
-            return o.startswith(pre) and m.startswith(pre) and o.split(' | sent ')[1] == m.split(' | sent ')[1]
+        names = [unhx(t).upper() for t in toks[4:7:2] if t not in ('N',)]
+        if names and (names[0] == b'MSETNX' or (names[0] == b'UMFORWARD' and len(names) > 1 and names[1] == b'MSETNX')):
+            pres = ('reply E ' + hx(b'slot not covered '), 'reply E ' + hx(b'ERR_TOO_MANY_REDIRECTIONS'), 'reply E ' + hx(b'MOVED '))
+            return o.startswith(pres) and m.startswith(pres) and o.split(' | sent ')[1].strip() == m.split(' | sent ')[1].strip()
     return False
 
 def run(chk):
